@@ -104,6 +104,41 @@ func genUciDet(o *Out, r *rand.Rand, thorough bool) {
 				add("> ucinewgame")
 				tags["ucinewgame"] = true
 				continue
+			case x < 86 && r.Intn(5) < 2: // malformed: white space other than one blank between the moves
+				// `continuation` cuts the extra words with strings.Fields (every unicode.IsSpace rune, runs of them), the
+				// new-position path cuts the line with strings.Split(_, " "): with a remembered line that this one extends
+				// the moves are played, without one the line is rejected at the first glued move. The model must predict both.
+				ext := playoutMoves(r, start, len(moves)+2+r.Intn(2))
+				if len(ext) >= len(moves)+2 && strings.Join(ext[:len(moves)], " ") == strings.Join(moves, " ") {
+					// (two plain blanks are left out on purpose: the reference reading of the script, `Driver.denote`, takes a run of
+					// blanks as one separator - as the UCI protocol does - while the real new-position path sees an empty move and
+					// rejects the line; that difference is reported as a finding, see C10 `double_space_paths_differ`)
+					ws := []string{"\t", "\v", "\f", "\u0085", "\u00a0", "\u2003", "\u3000", " \t", "\t ", "\t\t", "\u1680\u202f"}[r.Intn(11)]
+					base := positionLine(start, moves)
+					if r.Intn(4) != 0 {
+						add("> "+base, "sync", "state")
+						tags["ws-extends-remembered"] = true
+					} else {
+						add("> ucinewgame")
+						tags["ws-from-scratch"] = true
+					}
+					extra := ext[len(moves):]
+					l := base
+					if len(moves) == 0 {
+						l += " moves"
+					}
+					l += " " + extra[0] + ws + strings.Join(extra[1:], ws)
+					add("> "+l, "sync", "state")
+					if r.Intn(3) == 0 { // ... and a line that extends the odd one by a blank and a word that is no move
+						add("> "+l+" "+"a1a1", "sync", "state")
+					}
+					if r.Intn(2) == 0 {
+						moves = ext // the next line is then the same game, spelled properly
+					}
+					tags["malformed"] = true
+					tags["ws-between-moves"] = true
+				}
+				continue
 			case x < 86: // malformed: must be survived; the next command sets up from scratch
 				add("> "+[]string{"position startpos moves e2e5", "position fen 8/8 w - - 0 1", "position startpos moves", "position", "position fen", "position startpos moves e2e4 e2e4"}[r.Intn(6)], "sync", "alive")
 				tags["malformed"] = true
@@ -156,6 +191,22 @@ func genUciDet(o *Out, r *rand.Rand, thorough bool) {
 		o.do(line)
 		o.Count("ucidet:hash-on")
 		o.Nontrivial(line)
+	}
+	// white space between moves (the audit's witness): a tab-separated extension of the remembered line is played
+	// (strings.Fields), the same line without a remembered line is rejected (strings.Split(_, " ")), and a line
+	// extending the odd line by whole words goes on from it
+	for _, l := range []string{
+		"uci plain 0 ; > position startpos moves e2e4 ;; sync ;; state ;; > position startpos moves e2e4 e7e5\tg1f3 ;; sync ;; state ;; " +
+			"> position startpos moves e2e4 e7e5\tg1f3 b8c6 ;; sync ;; state ;; > ucinewgame ;; > position startpos moves e2e4 e7e5\tg1f3 ;; sync ;; state ;; " +
+			"> position startpos moves e2e4 e7e5 g1f3 ;; sync ;; state",
+		"uci plain 0 ; > position startpos ;; sync ;; > position startpos moves\u00a0e2e4\u3000 e7e5 ;; sync ;; state ;; > position startpos\tmoves\te2e4 ;; sync ;; state ;; " +
+			"> position startpos moves d2d4 ;; sync ;; state",
+		"uci plain 0 ; > position fen 4k3/8/8/8/8/8/4P3/4K3 w - - 0 1 ;; sync ;; > position fen 4k3/8/8/8/8/8/4P3/4K3 w - - 0 1 \v moves \f e2e4\u0085e8d8 ;; sync ;; state ;; " +
+			"> position fen 4k3/8/8/8/8/8/4P3/4K3 w - - 0 1 moves e2e4 ;; sync ;; state",
+	} {
+		o.do(l)
+		o.Count("ucidet:ws-between-moves-curated")
+		o.Nontrivial(l)
 	}
 	// a root where a draw can be claimed still gets a legal move
 	shuffle := "g1f3 g8f6 f3g1 f6g8 g1f3 g8f6 f3g1 f6g8"
